@@ -99,6 +99,51 @@ func TestC05Srv(t *testing.T) {
 			run("recv-order", acts, []string{"recv-order", "pattern:" + pat, fmt.Sprintf("early=%v", early)})
 		}
 	}
+	// ONE Server, TWO connections, live streams under the SAME id on both (every client starts counting at 1): the envelopes
+	// of connection B (opener, messages, half-close / reset) are delivered while A's handler is parked in RecvMsg; each
+	// handler must see only its own connection's envelopes, in order. Connection B is outside the model: spec predicates
+	// only (C05Srv2 carries what B was sent and what B's handler received).
+	run2 := func(acts []SAct, tags []string) {
+		if !want(idx) {
+			idx++
+			return
+		}
+		em.Marker("begin", idx)
+		res := runServerScenario(t, idx, "two-conns", svScript(acts), em, tags)
+		tags = append(tags, svTagsOf(res)...)
+		em.Emit(Rec{Idx: idx, Kind: "two-conns", Desc: svScenario{Acts: res.Acts}, Obs: res.Obs, Tags: tags,
+			Coq: fmt.Sprintf("C05Srv2 (%s) %s %s", svQualify(svCase(res)), coqZList(res.BSent), coqZList(res.BRecv))})
+		em.Marker("end", idx)
+		idx++
+	}
+	peerb := func(f *FrameSpec) SAct { return SAct{Op: "peerb", F: f} }
+	bFrame := func(id uint64, b *int64) *FrameSpec { return &FrameSpec{Id: id, Hdr: "ok:0", Method: mBidi, Src: "srcB", Dst: "dst", Body: b} }
+	for _, idB := range []uint64{1, 2} {
+		for _, endB := range []string{"close", "reset", "open"} {
+			for _, first := range []string{"A", "B"} {
+				openA := SAct{Op: "deliver", F: &FrameSpec{Id: 1, Hdr: "ok:0", Method: mBidi, Src: "src", Dst: "dst"}}
+				var acts []SAct
+				if first == "A" {
+					acts = append(acts, openA, recv(0), peerb(bFrame(idB, nil)))
+				} else {
+					acts = append(acts, peerb(bFrame(idB, nil)), openA, recv(0))
+				}
+				acts = append(acts, recv(0), peerb(bFrame(idB, i64(7001))), recv(0), mkMsg(1, 101), recv(0),
+					peerb(bFrame(idB, i64(7002))), recv(0), mkMsg(1, 102), recv(0))
+				switch endB {
+				case "close":
+					acts = append(acts, peerb(&FrameSpec{Id: idB, Hdr: "ok:0", Method: mBidi, Src: "srcB", Dst: "dst", Status: &[2]int64{0, 0}, Trl: "ok:0"}))
+				case "reset":
+					acts = append(acts, peerb(&FrameSpec{Id: idB, Hdr: "ok:0", Method: mBidi, Src: "srcB", Dst: "dst", Rst: "rst"}))
+				}
+				acts = append(acts, recv(0), mkMsg(1, 103), recv(0),
+					SAct{Op: "deliver", F: &FrameSpec{Id: 1, Hdr: "ok:0", Method: mBidi, Src: "src", Dst: "dst", Status: &[2]int64{0, 0}, Trl: "ok:0"}},
+					recv(0), SAct{Op: "hstep", H: 0, Hop: &HopSpec{Op: "return"}})
+				run2(acts, []string{"two-conns", fmt.Sprintf("idB=%d", idB), "endB:" + endB, "first:" + first})
+			}
+		}
+	}
+
 	// equal ids from different sources
 	for _, srcs := range [][2]string{{"c-1", "c-11"}, {"src", "src2"}, {"src", "src"}} {
 		for _, order := range []string{"first-first", "second-first"} {
